@@ -375,6 +375,16 @@ pub fn run(ctx: &Ctx) {
         v
     }, check_reuse);
 
+    ctx.listed("ephemeral_scalar_survives_a_failed_confirmation", "one initiator object: exchange_1 draws rA, a damaged S_B makes exchange_3 fail, then the genuine (R_B, S_B) arrives: the second exchange_3 must succeed with the key of GB/T 32918.3 for the rA that was drawn (an object that wiped or replaced its scalar would now be using a value no generator produced); also roles swapped and simultaneous start", || {
+        let mut v = Vec::new();
+        for kind in 0..3u8 {
+            for i in 0..3u64 {
+                v.push(super::c15::Reuse { kind, seed: 0x2e14 + i * 5 + kind as u64, klen: 16 + i as usize * 9 });
+            }
+        }
+        v
+    }, |c| super::c15::check_reuse(c).map_err(|mut f| { f.key = format!("{} input=object-reused", f.key); f }));
+
     ctx.listed_seq("bit_balance", "per operation: ones-count of every bit position within 8 sigma of the exact uniform expectation", || ALL_KINDS.iter().map(|k| Stat { kind: *k }).collect(), check_stats);
     ctx.listed_seq("global_freshness", "no scalar value occurs twice among all observed scalars of the run", || vec![0u8], check_global_freshness);
 
